@@ -95,6 +95,13 @@ func verifHarness_C20_basicAuth() {
 func verifHarness_C20_basicAuthRaw() {
 	nacc := verifChoice("accounts", verifParam("A")+1)
 	accounts := map[string]string{}
+	// the gate is built from the map either after or before the accounts are entered (the map is
+	// the caller's: what counts is its content when a request arrives)
+	fillLater := verifChoice("fillLater", 2) == 1
+	var gate rux.HandlerFunc
+	if fillLater {
+		gate = HTTPBasicAuth(accounts)
+	}
 	var users, pwds []string
 	for i := 0; i < nacc; i++ {
 		u := verifShort("acc_user", 0, 2)
@@ -105,6 +112,9 @@ func verifHarness_C20_basicAuthRaw() {
 		users = append(users, u)
 		pwds = append(pwds, p)
 		accounts[u] = p
+	}
+	if !fillLater {
+		gate = HTTPBasicAuth(accounts)
 	}
 	req := verifRequest("GET", "/x")
 	hk := verifChoice("header", 3) // none, well-formed credentials, arbitrary bytes after "Basic "
@@ -127,7 +137,7 @@ func verifHarness_C20_basicAuthRaw() {
 	ranMain := false
 	var sawUser any
 	r := rux.New()
-	r.GET("/x", func(c *rux.Context) { ranMain = true; sawUser, _ = c.Get("username") }, HTTPBasicAuth(accounts))
+	r.GET("/x", func(c *rux.Context) { ranMain = true; sawUser, _ = c.Get("username") }, gate)
 	rec := verifNewWriter()
 	k := verifCatch(func() { r.ServeHTTP(rec, req) })
 	verifAssert(k == "", "no Authorization header makes the gate panic")
